@@ -82,6 +82,39 @@ def run(ctx):
         marker = Predictor(graph, lambda x: x.reshape((x.shape[0], -1))[:, 0] * 7 + 1)(st)
         if [int(v) for v in marker.tolist()] != [G.wrap(s[0] * 7 + 1) for s in flat]:        # int64 arithmetic wraps
             ctx.violation("property_fails", "a callable predictor's values come back in a different order or value when batched", case, True)
+        # a result belongs to the caller: scoring another set with the SAME predictor object must not change scores handed out earlier
+        pr_ = Predictor(graph, "hamming")
+        first = pr_(st)
+        keep = [int(v) for v in first.tolist()]
+        perm_ = list(range(k)); rng.shuffle(perm_)
+        second = [int(v) for v in pr_(st[perm_[: max(1, k - rng.randint(0, 1))]]).tolist()]
+        if [int(v) for v in first.tolist()] != keep or second != [want[i] for i in perm_[: len(second)]]:
+            ctx.violation("property_fails", "scores returned by an earlier call changed after the same Predictor scored another set (or the second set is scored wrongly)",
+                          dict(case, claim="result_aliasing", order=perm_), True)
+        # a torch module as predictor: dropout / batch normalisation must be switched to inference, else scores depend on how the work is split
+        if len(metas) % 4 == 0:
+            width_ = len(flat[0])
+            torch.manual_seed(5)
+            net = torch.nn.Sequential(torch.nn.Flatten(), torch.nn.Linear(width_, 4), torch.nn.BatchNorm1d(4), torch.nn.Dropout(0.5), torch.nn.Linear(4, 1), torch.nn.Flatten(0))
+            net.train()
+
+            class Net(torch.nn.Module):
+                def __init__(self):
+                    super().__init__()
+                    self.net = net
+
+                def forward(self, x):
+                    return self.net(x.to(torch.float32) % 7)
+            try:
+                m1 = [round(float(v), 5) for v in Predictor(graph, Net())(st).tolist()]
+                m2 = [round(float(v), 5) for v in Predictor(g2, Net())(st).tolist()]
+                m3 = [round(float(v), 5) for v in Predictor(g2, Net())(st).tolist()]
+                ctx.count("module_predictor_cases")
+                if m1 != m2 or m2 != m3:
+                    ctx.violation("property_fails", "a torch module used as predictor gives scores that depend on the batch size or on the call (left in training mode?)",
+                                  dict(case, claim="module_predictor"), True)
+            except Exception as ex:  # pylint: disable=broad-except
+                ctx.violation("property_fails", f"a torch module used as predictor raised {type(ex).__name__}: {str(ex)[:100]}", dict(case, claim="module_predictor"), True)
         # fractional and negative scores (a trained model returns floats): value and order must not depend on the batch size either
         frac = lambda x: (x.reshape((x.shape[0], -1))[:, 0] % 8).to(torch.float64) * 0.125 - 0.5       # exact in binary floating point
         f1 = [float(v) for v in Predictor(graph, frac)(st).tolist()]
